@@ -54,10 +54,16 @@ def _gset_iter(it, self):
     return iter(list(self.fields["items"]) + list(self.fields["added"]))
 
 
+def _gset_contains(it, self, x):
+    return any(x is y for y in self.fields["items"] + self.fields["added"])
+
+
 _GSet.add = lambda self, x: None
 _GSet.__iter__ = lambda self: None
+_GSet.__contains__ = lambda self, x: None
 I.register_model(_GSet.add, _gset_add)
 I.register_model(_GSet.__iter__, _gset_iter)
+I.register_model(_GSet.__contains__, _gset_contains)
 
 
 def gset(items=()):
